@@ -1,7 +1,9 @@
 (* C11 — Cell expressions denote the Boolean function MCNP assigns to them.
    Only restatements; proofs are in C11/Proofs.v. Spec vocabulary: C11/Spec.v. *)
 From Coq Require Import List NArith ZArith Bool String Ascii Lia.
-From T4V Require Import Base.Str C11.Model C11.Spec C11.Proofs C11.LexProofs C11.LexSound C11.Layout C11.Pipeline C11.Sound C11.Complete C11.Loop C11.Card C11.Handover C11.EndToEnd.
+From T4V Require Import Base.Str C11.Model C11.Spec C11.Proofs C11.LexProofs C11.LexSound C11.Layout C11.Pipeline C11.Sound C11.Complete C11.Loop C11.Card C11.Handover C11.EndToEnd C11.Regex.
+From T4V Require C11.Exec C11.RegexProofs C15.Model.
+From T4V Require Import C11.LinkC15.
 Import ListNotations.
 Close Scope string_scope.
 Open Scope list_scope.
@@ -282,6 +284,61 @@ Proof.
   - vm_compute. reflexivity.
   - vm_compute. reflexivity.
 Qed.
+
+(* ---- the open finding, exactly ----
+   every written MCNP expression is in exactly one of two cases: no #n below a
+   #( ) and accepted with MCNP's meaning, or one such #n and AttributeError.
+   The class nested_complement_of_cellref is therefore precisely the complement
+   of the accepted set within the well-formed expressions; MCNP's meaning of a
+   rejected expression is [mden cd sg e] as for every expression *)
+Theorem C11_written_dichotomy : forall (e : mexpr) (ws : written) (trail : nat),
+  wf_written ws = true -> tokens_written ws = toks 0 e ->
+  (no_cell_under_not e = true /\
+   exists a, get_ast (render ws trail) = Ok a /\
+             (nonzero e = true -> forall cd sg, aden cd sg a = mden cd sg e)) \/
+  (no_cell_under_not e = false /\ get_ast (render ws trail) = Err EAttribute).
+Proof. exact written_dichotomy. Qed.
+Print Assumptions C11_written_dichotomy.
+
+Theorem C11_rejected_iff_nested : forall (e : mexpr) (ws : written) (trail : nat),
+  wf_written ws = true -> tokens_written ws = toks 0 e ->
+  ((exists x, get_ast (render ws trail) = Err x) <-> no_cell_under_not e = false).
+Proof. exact rejected_iff_nested. Qed.
+Print Assumptions C11_rejected_iff_nested.
+
+(* ---- the code-shaped model ----
+   Regex.v models normalize() as the composition of its eight re.sub calls
+   (one explicit rewriting function each, tied one by one to the regexes on all
+   short strings incl. the private characters) followed by the
+   character-level PEG of geom.ebnf with GeomSemantics; that model and the lexer
+   + automaton model used by all theorems above are the same function on every
+   string of length <= 5 over "123-#(): ." (111 111 strings, by computation;
+   the thorough tier extends the computation to length 6 and to length 7 over
+   nine characters) *)
+Theorem C11_get_ast2_eq_bounded : forall s : String.string, (String.length s <= 5)%nat ->
+  (forall c, In c (String.list_ascii_of_string s) -> In c Exec.alpha3) -> get_ast2 s = get_ast s.
+Proof. exact RegexProofs.get_ast2_eq_short. Qed.
+Print Assumptions C11_get_ast2_eq_bounded.
+
+(* ---- cellcard.split on every cell card ([split_card_full]: three-field
+   check, then the LIKE branch = C15's model of re_likebut, else split_card) ---- *)
+Theorem C11_split_full : forall name g1 mat rho g3 E opts,
+  digits_ok name = true -> mat_ok mat rho ->
+  str_forall expr_char E = true -> head_sat nonblank E = true -> sep_ok rho g3 E -> opts_ok E opts ->
+  split_card_full (card_body name g1 mat rho g3 E ++ opts)%string = Ok ((blanks g3 ++ E)%string, opts).
+Proof. exact split_full_wellformed. Qed.
+Print Assumptions C11_split_full.
+
+(* LINKED with C15 (C15.Proofs.split_like_card): a LIKE card in any letter case
+   whose options do not contain "but" is split after BUT *)
+Theorem C11_split_full_like_linked : forall name L ds B rest : String.string,
+  all_digits name = true -> name <> ""%string -> C15.Model.lower L = "like"%string ->
+  all_digits ds = true -> ds <> ""%string -> C15.Model.lower B = "but"%string ->
+  C15.Model.has "but" (C15.Model.lower rest) = false ->
+  split_card_full (name ++ " " ++ L ++ " " ++ ds ++ " " ++ B ++ rest)%string =
+  Ok ((" " ++ L ++ " " ++ ds ++ " " ++ B)%string, rest).
+Proof. exact split_full_like. Qed.
+Print Assumptions C11_split_full_like_linked.
 
 (* [admissible] excludes exactly one class of well-formed MCNP expressions
    that the code rejects (genuine defect, known finding): *)
